@@ -113,11 +113,17 @@ def must_verify(tyname):
           for has_eci in (False, True):
               optp = lambda tag: (lambda o: o)(_opt(tag))
               extra = dict(all_rollup_ids=M.new_vec('Vec<RollupId>', [])) if tyname == 'FilteredSequencerBlock' else {}
-              raw = B.struct(ex, RAW + tyname, **extra, block_hash=Obj('bytes::Bytes', kind='opaque'), header=_opt('header'), rollup_transactions=M.new_vec('Vec<RollupTransactions>', [Obj(RAW + 'RollupTransactions', kind='opaque') for _ in range(k)]),
+              if tyname == 'SubmittedMetadata':
+                  if k:
+                      continue
+                  raw = B.struct(ex, RAW + tyname, block_hash=Obj('bytes::Bytes', kind='opaque'), header=_opt('header'), rollup_ids=M.new_vec('Vec<RollupId>', []), rollup_transactions_proof=_opt('rtp'), rollup_ids_proof=_opt('rip'),
+                                 upgrade_change_hashes=M.new_vec('Vec<Bytes>', []), extended_commit_info_with_proof=(some(Obj('raw-eci', kind='opaque')) if has_eci else none()))
+              else:
+                raw = B.struct(ex, RAW + tyname, **extra, block_hash=Obj('bytes::Bytes', kind='opaque'), header=_opt('header'), rollup_transactions=M.new_vec('Vec<RollupTransactions>', [Obj(RAW + 'RollupTransactions', kind='opaque') for _ in range(k)]),
                              rollup_transactions_proof=_opt('rtp'), rollup_ids_proof=_opt('rip'), upgrade_change_hashes=M.new_vec('Vec<Bytes>', []),
                              extended_commit_info_with_proof=(some(Obj('raw-eci', kind='opaque')) if has_eci else none()))
               st = ex.start(cands[0], [raw])
-              for i, p in enumerate(run.explore(ex, st, allow_havoc=(r'^Arguments::|fmt::', r'SequencerBlockError::'))):
+              for i, p in enumerate(run.explore(ex, st, allow_havoc=(r'^Arguments::|fmt::', r'SequencerBlockError::', r'SubmittedMetadataError::'))):
                   lab = f'[{k} rollups, extended commit info {has_eci}, path {i}]'
                   if p.kind != 'return':
                       run.prove(f'no panic {lab}', p.pc, z3.BoolVal(False), detail=p.info); continue
@@ -130,8 +136,8 @@ def must_verify(tyname):
                       continue
                   n_ok += 1
                   txs_check = 'rollup_txs_included' if tyname == 'SequencerBlock' else 'rollup_txs_match_root'
-                  need = ['proof_wellformed', 'header_wellformed', 'root_proof_verifies', 'rollup_ids_included'] + ([txs_check] if (tyname == 'SequencerBlock' or k) else []) + (['extended_commit_info_ok'] if has_eci else [])
-                  claim = [z3.BoolVal(all(nm in orc for nm in need) and len(orc.get('proof_wellformed', [])) == 2 and len(orc.get('rollup_transactions_wellformed', [])) == k and (tyname == 'SequencerBlock' or len(orc.get('rollup_txs_match_root', [])) == k))]
+                  need = ['proof_wellformed', 'header_wellformed', 'root_proof_verifies', 'rollup_ids_included'] + ([txs_check] if (tyname == 'SequencerBlock' or (k and tyname != 'SubmittedMetadata')) else []) + (['extended_commit_info_ok'] if has_eci else [])
+                  claim = [z3.BoolVal(all(nm in orc for nm in need) and len(orc.get('proof_wellformed', [])) == 2 and len(orc.get('rollup_transactions_wellformed', [])) == k and (tyname != 'FilteredSequencerBlock' or len(orc.get('rollup_txs_match_root', [])) == k))]
                   claim += [b for nm in need + (['rollup_transactions_wellformed'] if k else []) for b in orc.get(nm, [])]
                   run.prove(f'accepted => both proofs and the header are well-formed, the transactions root proof verifies, every rollup\'s transactions and the rollup ids are included under the data hash (and the extended commit info, when present, was checked) {lab}',
                             p.pc, z3.And(*claim))
@@ -144,6 +150,7 @@ def must_verify(tyname):
 
 
 obligation('C17', 'C17-3a SequencerBlock::try_from_raw accepts a raw block only after the rollup-transactions root, every rollup\'s transactions and the rollup ids were all shown to be included under the header\'s data hash')(must_verify('SequencerBlock'))
+obligation('C17', 'C17-3c SubmittedMetadata::try_from_raw (Celestia metadata) accepts only after both proofs / the header were converted, the rollup-transactions root proof verified and the rollup ids were shown to be included under the data hash')(must_verify('SubmittedMetadata'))
 obligation('C17', 'C17-3b FilteredSequencerBlock::try_from_raw accepts a raw block only after the rollup-transactions root proof, every served rollup\'s transactions against that root and the rollup ids were all checked')(must_verify('FilteredSequencerBlock'))
 
 
